@@ -3,8 +3,10 @@
 package internal
 
 import (
+	"bytes"
 	"encoding/json"
 	"errors"
+	"fmt"
 	"net/http"
 	"sort"
 	"strings"
@@ -16,6 +18,13 @@ import (
 	"google.golang.org/protobuf/proto"
 	"google.golang.org/protobuf/reflect/protoreflect"
 	"google.golang.org/protobuf/types/known/anypb"
+	"google.golang.org/protobuf/types/known/structpb"
+
+	// link the message types the detail generator uses, so that they resolve (a conversion that
+	// decodes and re-encodes a detail of a registered type would canonicalise its bytes)
+	_ "google.golang.org/genproto/googleapis/rpc/errdetails"
+	_ "google.golang.org/protobuf/types/known/durationpb"
+	_ "google.golang.org/protobuf/types/known/wrapperspb"
 )
 
 func init() {
@@ -24,6 +33,8 @@ func init() {
 	verifKinds["c18.http"] = verifC18HTTP
 	verifKinds["c18.codec_rt"] = verifC18CodecRT
 	verifKinds["c18.codec_unknown"] = verifC18CodecUnknown
+	verifKinds["c18.codec_hist"] = verifC18CodecHist
+	verifKinds["c18.alias_http"] = verifC18AliasHTTP
 }
 
 // (code (msg)? ((url value)...)) -> *conformancev1.Error
@@ -366,4 +377,272 @@ func verifC18CodecUnknown(args []vsx) vsx {
 		return vS("err-other")
 	}
 	return verifC18CodecResult(err, &got, nil)
+}
+
+// ---- histories: the converted structures are used further ---------------------------------
+
+// header values in slices with spare capacity: an append() to such a slice - or to anything
+// that shares its array - writes in place
+func verifC18Spare(vals []string) []string {
+	out := make([]string, len(vals), len(vals)+4)
+	copy(out, vals)
+	return out
+}
+
+func verifC18MapOut(m map[string][]string) vsx {
+	keys := make([]string, 0, len(m))
+	for k := range m {
+		keys = append(keys, k)
+	}
+	sort.Strings(keys)
+	out := make([]vsx, 0, len(m))
+	for _, k := range keys {
+		out = append(out, vL(vS(k), vStrs(m[k])))
+	}
+	return vL(out...)
+}
+
+func verifC18AppendAll(m map[string][]string, x string) {
+	keys := make([]string, 0, len(m))
+	for k := range m {
+		keys = append(keys, k)
+	}
+	sort.Strings(keys)
+	for _, k := range keys {
+		m[k] = append(m[k], x)
+	}
+}
+
+// fn headers x1 x2 -> (A after the conversion, A at the end, B at the end): A and B are filled
+// from the SAME source; x1 is appended to every value list of A, x2 to every value list of B,
+// then the source's arrays are scribbled over and its slices appended to
+func verifC18AliasHTTP(args []vsx) vsx {
+	fn, x1, x2 := args[0].i, args[2].str(), args[3].str()
+	switch fn {
+	case 0, 1:
+		conv := AddHeaders
+		if fn == 1 {
+			conv = AddTrailers
+		}
+		src := verifC18Headers(args[1])
+		for _, h := range src {
+			h.Value = verifC18Spare(h.Value)
+		}
+		a, b := http.Header{}, http.Header{}
+		conv(src, a)
+		img0 := verifC18MapOut(a)
+		conv(src, b)
+		verifC18AppendAll(a, x1)
+		verifC18AppendAll(b, x2)
+		for _, h := range src {
+			for i := range h.Value {
+				h.Value[i] = "#"
+			}
+			h.Value = append(h.Value, "#")
+		}
+		return vL(img0, verifC18MapOut(a), verifC18MapOut(b))
+	case 2:
+		src := map[string][]string{}
+		for _, h := range verifC18Headers(args[1]) {
+			src[h.Name] = verifC18Spare(h.Value)
+		}
+		a := ConvertToProtoHeader(src)
+		img0 := verifC18HeadersOut(a)
+		b := ConvertToProtoHeader(src)
+		sort.SliceStable(b, func(i, j int) bool { return b[i].Name < b[j].Name })
+		for _, h := range a {
+			h.Value = append(h.Value, x1)
+		}
+		for _, h := range b {
+			h.Value = append(h.Value, x2)
+		}
+		for k, vs := range src {
+			for i := range vs {
+				vs[i] = "#"
+			}
+			src[k] = append(vs, "#")
+		}
+		return vL(img0, verifC18HeadersOut(a), verifC18HeadersOut(b))
+	}
+	return vL(vS("bad-case"))
+}
+
+// ---- codec histories: ONE message object is changed in place (nested messages, list elements,
+// map values keep their identity wherever possible) and encoded again and again ----------------
+
+func verifC18SyncHeaders(hs []*conformancev1.Header, ts []verifC18Tree) []*conformancev1.Header {
+	if len(hs) > len(ts) {
+		hs = hs[:len(ts)]
+	}
+	for i, t := range ts {
+		if i < len(hs) {
+			hs[i].Name = t.known
+		} else {
+			hs = append(hs, &conformancev1.Header{Name: t.known})
+		}
+	}
+	return hs
+}
+
+// the in-place counterpart of verifC18Build(t, false, allowAny)
+func verifC18Sync(ccr *conformancev1.ClientCompatRequest, t verifC18Tree, allowAny bool) {
+	ccr.TestName = t.known
+	if len(t.subs) == 0 {
+		ccr.RawRequest, ccr.RequestHeaders = nil, nil
+		return
+	}
+	ccr.RequestHeaders = verifC18SyncHeaders(ccr.RequestHeaders, t.subs[1:])
+	if ccr.RawRequest == nil {
+		ccr.RawRequest = &conformancev1.RawHTTPRequest{}
+	}
+	raw, s := ccr.RawRequest, t.subs[0]
+	raw.Verb = s.known
+	if len(s.subs) == 0 {
+		raw.Body, raw.Headers = nil, nil
+		return
+	}
+	raw.Headers = verifC18SyncHeaders(raw.Headers, s.subs[1:])
+	body, _ := raw.Body.(*conformancev1.RawHTTPRequest_Stream)
+	if body == nil || body.Stream == nil {
+		body = &conformancev1.RawHTTPRequest_Stream{Stream: &conformancev1.StreamContents{}}
+		raw.Body = body
+	}
+	stream, s2 := body.Stream, s.subs[0]
+	items := stream.Items
+	if len(items) > len(s2.subs) {
+		items = items[:len(s2.subs)]
+	}
+	for i, s3 := range s2.subs {
+		if i >= len(items) {
+			items = append(items, &conformancev1.StreamContents_StreamItem{})
+		}
+		item := items[i]
+		if len(s3.subs) == 0 {
+			item.Payload = nil
+			continue
+		}
+		if item.Payload == nil {
+			item.Payload = &conformancev1.MessageContents{}
+		}
+		payload, s4 := item.Payload, s3.subs[0]
+		if len(s4.subs) > 0 && allowAny {
+			bin, _ := payload.Data.(*conformancev1.MessageContents_BinaryMessage)
+			if bin == nil || bin.BinaryMessage == nil {
+				bin = &conformancev1.MessageContents_BinaryMessage{BinaryMessage: &anypb.Any{}}
+				payload.Data = bin
+			}
+			bin.BinaryMessage.TypeUrl = s4.subs[0].known
+		} else {
+			payload.Data = &conformancev1.MessageContents_Text{Text: s4.known}
+		}
+	}
+	stream.Items = items
+}
+
+// the tree laid over google.protobuf.Struct: fields["s"] = known, fields["m<i>"] = struct of subs[i]
+// (map values of message type)
+func verifC18SyncStruct(st *structpb.Struct, t verifC18Tree) {
+	if st.Fields == nil {
+		st.Fields = map[string]*structpb.Value{}
+	}
+	if v := st.Fields["s"]; v != nil {
+		v.Kind = &structpb.Value_StringValue{StringValue: t.known}
+	} else {
+		st.Fields["s"] = structpb.NewStringValue(t.known)
+	}
+	for i, s := range t.subs {
+		key := fmt.Sprintf("m%d", i)
+		v := st.Fields[key]
+		if v == nil {
+			v = &structpb.Value{}
+			st.Fields[key] = v
+		}
+		sv, _ := v.Kind.(*structpb.Value_StructValue)
+		if sv == nil || sv.StructValue == nil {
+			sv = &structpb.Value_StructValue{StructValue: &structpb.Struct{}}
+			v.Kind = sv
+		}
+		verifC18SyncStruct(sv.StructValue, s)
+	}
+	for i := len(t.subs); ; i++ {
+		key := fmt.Sprintf("m%d", i)
+		if _, ok := st.Fields[key]; !ok {
+			break
+		}
+		delete(st.Fields, key)
+	}
+}
+
+// codec family ((k tree)...) -> the result of every Marshal
+func verifC18CodecHist(args []vsx) vsx {
+	codec := verifC18Codec(args[0].i)
+	family, allowAny := args[1].i, args[0].i == 0
+	var obj proto.Message
+	fresh := func(t verifC18Tree) proto.Message {
+		if family == 1 {
+			st := &structpb.Struct{}
+			verifC18SyncStruct(st, t)
+			return st
+		}
+		return verifC18Build(t, false, allowAny)
+	}
+	if family == 1 {
+		obj = &structpb.Struct{}
+	} else {
+		obj = &conformancev1.ClientCompatRequest{}
+	}
+	decode := func(data []byte, want proto.Message) vsx {
+		got := obj.ProtoReflect().New().Interface()
+		err := codec.Unmarshal(data, got)
+		res := verifC18CodecResult(err, got, obj)
+		if err == nil && !proto.Equal(got, want) {
+			return vS("ok-differs")
+		}
+		return res
+	}
+	out := []vsx{}
+	for _, step := range args[2].l {
+		k, t := step.l[0].i, verifC18ParseTree(step.l[1])
+		if family == 1 {
+			verifC18SyncStruct(obj.(*structpb.Struct), t)
+		} else {
+			verifC18Sync(obj.(*conformancev1.ClientCompatRequest), t, allowAny)
+		}
+		want := fresh(t)
+		if !proto.Equal(obj, want) {
+			return vErr("harness-sync") // the in-place update must give the value a fresh build gives
+		}
+		if k >= 1 {
+			proto.Size(obj)
+		}
+		if k == 2 {
+			continue
+		}
+		data, err := codec.Marshal(obj)
+		if err != nil {
+			out = append(out, vS("marshal-err"))
+			continue
+		}
+		res := decode(data, want)
+		// the other two entry points encode the same value
+		type appender interface {
+			MarshalAppend([]byte, any) ([]byte, error)
+			MarshalStable(any) ([]byte, error)
+		}
+		if app, ok := codec.(appender); ok && res.b != nil && string(res.b) == "ok" {
+			prefix := []byte("prefix")
+			appended, err := app.MarshalAppend(prefix, obj)
+			if err != nil || !bytes.HasPrefix(appended, prefix) {
+				res = vS("marshal-err")
+			} else if r2 := decode(appended[len(prefix):], want); string(r2.b) != "ok" {
+				res = r2
+			} else if stable, err := app.MarshalStable(obj); err != nil {
+				res = vS("marshal-err")
+			} else if r3 := decode(stable, want); string(r3.b) != "ok" {
+				res = r3
+			}
+		}
+		out = append(out, res)
+	}
+	return vL(out...)
 }
